@@ -35,6 +35,19 @@ def wide_sparse_search(case, info):
     return len(set(case.get("indexes", []))) >= 8 and not case.get("globally_ordered")
 
 
+def deep_nesting(case, info):
+    """F-N: the text nests parentheses at least 50 deep (every level costs the recursive-descent parser a dozen Python
+    frames; at 70 levels the interpreter's default recursion limit is exceeded)."""
+    depth = best = 0
+    for ch in case.get("text", ""):
+        if ch == "(":
+            depth += 1
+            best = max(best, depth)
+        elif ch == ")":
+            depth = max(0, depth - 1)
+    return best >= 50
+
+
 def oob_on_dense_level(case, info):
     """F-F: the out-of-range coordinate lies on an axis stored in a dense level."""
     return bool(info.get("dense_level"))
@@ -52,4 +65,5 @@ SIGNATURES = {
     "reserved_name": reserved_name,
     "many_operands": many_operands,
     "wide_sparse_search": wide_sparse_search,
+    "deep_nesting": deep_nesting,
 }
